@@ -24,6 +24,7 @@ def adversarial_pool():
         datetime.datetime(100, 1, 1), datetime.datetime(9999, 12, 31, 23, 59, 59, 999000), datetime.date(1, 1, 1),
         datetime.datetime(2020, 1, 1), datetime.datetime(2020, 6, 1, 12, tzinfo=TZ.utc), datetime.date(9999, 12, 31),
         [], [1], {}, {'a': 1}, gen_prog.host_fn, re.compile('a'),
+        [float('inf')], {'a': float('nan')}, [[1, float('-inf')]],  # directed witnesses for finding F17
     ]
 
 
@@ -151,7 +152,19 @@ def classify_escape(exc_type, msg, values):
     range). Anything else that escapes is a violation."""
     if exc_type in ('ValueError', 'OverflowError') and _F16_MSG.search(msg) and any(extreme_datetime(v) for v in values):
         return 'F16'
+    if exc_type == 'ValueError' and 'Out of range float values are not JSON compliant' in msg and any(nonfinite_inside(v) for v in values):
+        return 'F17'
     return None
+
+
+def nonfinite_inside(v, depth=0):
+    """v is an array/object that (transitively) contains inf or nan."""
+    if depth > 8:
+        return False
+    if isinstance(v, (list, dict)):
+        items = v if isinstance(v, list) else v.values()
+        return any((isinstance(x, float) and (x != x or x in (float('inf'), float('-inf')))) or nonfinite_inside(x, depth + 1) for x in items)
+    return False
 
 
 def classify_arith(e, gvals, exc):
@@ -173,13 +186,21 @@ def lib_pool(rt_err):
     for f in (raising, rt_raising, non_number):
         refval.register_fn(f.__name__, f)
     return [None, True, False, 0, 1, -1, 2, 3, 2.5, -0.5, 7, 100, float('inf'), float('nan'),
-            '', 'a', 'abc', 'a,b\n1,2', '2024-02-30', '{"a":1}', '[', '(', 'a+', '1 +', 'i', 'typedef int X',
+            '', 'a', 'abc', 'a,b\n1,2', '2024-02-30', '{"a":1}', '[', '(', 'a+', '1 +', 'i', 'typedef int X', 'a > (1', 'a == 1', 'a + 1', 'zz(a)', "'x", 'a b',
             datetime.datetime(2020, 1, 2, 3, 4, 5, 6000), datetime.date(2021, 2, 3),
             [], [3, 1, 2], ['b', 'a'], [{'a': 1}, {'a': 2}], [[1, 2]], [None], {}, {'a': 1}, {'measures': [{'field': 'a', 'function': 'sum'}]},
             {'url': 'x'}, gen_prog.host_fn, raising, rt_raising, non_number, re.compile('a'), re.compile('(?P<n>b)')]
 
 
 SKIP_LIB = set()
+
+
+def arg_model(fn_name):
+    import bare_script.library as L
+    for k, v in vars(L).items():
+        if k.endswith('_ARGS') and isinstance(v, list) and k.lower().replace('_', '') == ('_' + fn_name + 'args').lower().replace('_', ''):
+            return v
+    return None
 
 
 def arity(fn_name, lib):
@@ -202,9 +223,26 @@ def run_library(spec, acc, api, con):
         if fi % spec['nshards'] != spec['shard'] % spec['nshards']:
             continue
         ar = arity(fname, lib)
+        model = arg_model(fname)
         for j in range(spec['n']):
-            nargs = rnd.randint(0, ar + 1)
-            args = [x if callable(x) else copy.deepcopy(x) for x in [rnd.choice(P) for _ in range(nargs)]]
+            if model is not None and rnd.random() < 0.6:
+                # steered by the argument model: right-typed containers/strings so that the function body is reached, with
+                # adversarial VALUES (malformed expressions, bad patterns, raising callbacks, non-finite numbers)
+                picks = []
+                for a in model:
+                    if a.get('lastArgArray'):
+                        picks.extend(rnd.choice(P) for _ in range(rnd.randint(0, 3)))
+                        break
+                    if rnd.random() < 0.12 and (a.get('nullable') or 'default' in a or a.get('type') is None):
+                        break
+                    t = a.get('type')
+                    cands = [x for x in P if t is None or refval.rtype(x) == t or (t == 'function' and callable(x))]
+                    picks.append(rnd.choice(cands or P) if rnd.random() < 0.9 else rnd.choice(P))
+                if rnd.random() < 0.05:
+                    picks.append(rnd.choice(P))
+            else:
+                picks = [rnd.choice(P) for _ in range(rnd.randint(0, ar + 1))]
+            args = [x if callable(x) else copy.deepcopy(x) for x in picks]
             debug = rnd.random() < 0.6
             lib_case(fname, args, debug, acc, api, con, spy)
         acc.cover('functions', fname)
